@@ -74,7 +74,7 @@ func VerifC02TotalOps() {
 	depth := vnd.Param("C02.OpsDepth", 1, 2)
 	for i := 0; i < depth; i++ {
 		op := vnd.Pick(opCount)
-		arg := vnd.Str(vnd.Len(vnd.Param("C02.KOps", 1, 2)))
+		arg := vnd.Str(vnd.Len(vnd.Param("C02.KOps", 1, 1)))
 		u = applyOp(u, op, arg)
 		if u == nil {
 			vnd.Fail("operation lost the URL")
@@ -142,7 +142,7 @@ var ipv4Shapes = []ctx{{"1.2.3.", ""}, {"1.2.3.4.", ""}, {"0x", ".1"}, {"1.", ".
 func VerifC02TotalHosts() {
 	p := symbolicParser()
 	var host string
-	w := vnd.StrOver(vnd.Len(vnd.Param("C02.KHosts", 2, 4)), "019afAFg:.x[]%")
+	w := vnd.StrOver(vnd.Len(vnd.Param("C02.KHosts", 2, 3)), "019afAFg:.x[]%")
 	if vnd.Pick(2) == 0 {
 		c := ipv6Ctxs[vnd.Pick(len(ipv6Ctxs))]
 		host = "[" + c.pre + w + c.suf + "]"
